@@ -15,6 +15,9 @@ def parse_region_spec(s):
     m = re.match(r'^u(8|16|32|64)\[(.*)\]$', s)
     if m:
         return ('arr', int(m.group(1)), m.group(2))
+    m = re.match(r'^ptr\[(.*)\]$', s)
+    if m:
+        return ('parr', 64, m.group(1))
     if s == 'struct':
         return ('struct',)
     if s == 'cell':
@@ -448,6 +451,13 @@ class CallMixin:
             else:
                 self.assume(names['alloc_failed'])
                 result = NULL
+        elif rct is not None and rct.kind == 'struct':
+            # struct returned by value: a temporary whose integer fields are described by `ensures` (result.f) and whose pointer
+            # fields by `result_ptrs`
+            tmp = self.new_struct_region('%s.result@%s' % (c.name, self.site(e)), rct, 'fresh', stack=True)
+            for fld, text in getattr(c, 'result_ptrs', {}).items():
+                self.st.mem[tmp.fields[fld].id] = tr.expr(text)
+            result = Ptr(tmp)
         elif rct is not None and rct.kind == 'int':
             result = self.fresh_bv(c.name + '.ret', rct.bits)
         elif rct is not None and rct.kind == 'ptr':
